@@ -48,7 +48,7 @@ def parse_by_type(kind, values, default=None):
 
 
 class CfgImpl(object):
-    def __init__(self, world, table, defaults=None, with_defaults_key=True, spelling=None):
+    def __init__(self, world, table, defaults=None, with_defaults_key=True, spelling=None, underscore_socks=None):
         """
         table: ordered list of (name, initial values list)
         defaults: dict name -> list of default values (served through config/defaults)
@@ -66,7 +66,7 @@ class CfgImpl(object):
             if name == 'SocksPort':
                 names.append('SocksPortLines Virtual')
                 names.append('__SocksPort Dependent')
-                sim.conf['__SocksPort'] = []
+                sim.conf['__SocksPort'] = list(underscore_socks or [])
                 sim.conf_types['__SocksPort'] = 'Dependent'
         sim.info['config/names'] = sorted(names)
         if with_defaults_key:
